@@ -106,6 +106,18 @@ pub fn check_transition_assigned(
             m.kind = format!("after-probe:{}", m.kind);
             out.push(m);
         }
+        // the same probes once more on DOMs rebuilt through into_raw / from_raw
+        match real.reraw() {
+            Err((site, msg)) => out.push(Mismatch { prop: "C12", kind: "from_raw:panic".into(), detail: format!("from_raw(into_raw(dom)) panicked on a DOM without duplicate ids: {} {}", site, msg) }),
+            Ok(()) => {
+                let mut again = Vec::new();
+                real.probe_uids(&model, &[Uid::U1, Uid::U2, Uid::Nil], &mut again);
+                for mut m in again {
+                    m.kind = format!("after-from_raw:{}", m.kind);
+                    out.push(m);
+                }
+            }
+        }
     }
     real.check_raw(&model, &mut out);
     (out, true)
